@@ -34,6 +34,12 @@ def tns(x):
     """torch tensor -> {"shape", "data"} with exact integer data (or a 'nonint' marker)."""
     torch = torch_()
     if x.is_sparse:
+        # torch does not validate COO indices: densifying an ill-formed tensor is undefined behaviour (heap corruption)
+        ind, size = x._indices(), list(x.shape)
+        if ind.shape[0] != len(size) or ind.shape[1] != x._values().shape[0]:
+            raise ValueError("ill-formed sparse tensor: indices %s values %s size %s" % (list(ind.shape), list(x._values().shape), size))
+        if ind.numel() and (int(ind.min()) < 0 or any(int(ind[k].max()) >= size[k] for k in range(len(size)))):
+            raise ValueError("ill-formed sparse tensor: index out of bounds for size %s" % size)
         x = x.to_dense()
     x = x.detach()
     shape = list(x.shape)
@@ -1240,7 +1246,8 @@ def run(ctx):
             "slicing and slice assignment, unsqueeze/squeeze, mT, index_select, gather, scatter_, advanced indexing, elementwise ops, sum, "
             "sparse COO tensors as entry lists with duplicates summing, torch.dsmm as the sum over entries)",
             "the FFT pair ifft(fft(x)*fft(y)).real is replaced by its mathematical definition, the circular convolution (convolution theorem not proved)",
-            "torch.linalg.qr (oracle: its output is an input of the stable_qr model) and torch.linalg.solve_triangular (modelled as multiplication by the inverse)",
+            "torch.linalg.qr (an oracle: its output on the same input is handed to the stable_qr model as a literal; only the contract A = QR, Q^T Q = I, R upper triangular is used in the theorems) and torch.linalg.solve_triangular (modelled by back substitution reading the upper triangle; proved equal to triu(R)^-1 B over a field; compared with a norm-wise tolerance)",
+            "PrimFloat / SpecFloat (binary32) evaluation of ModelQR by vm_compute stands for torch float64 / float32 CPU arithmetic (same IEEE operations; stable_qr compared bit-exactly, stable_pinverse with tolerance eps*cond)",
             "correspondence harness harness/c20.py, harness/c20_qr.py and the comparators coq/C20/Check.v, coq/C20/CheckQR.v",
             "dense oracle: plain torch float64 on dense tensors assembled by the harness"],
         "evaluations": st["evaluations"] + qr["evaluations"], "coq_terms": st["terms"] + qr["terms"],
